@@ -23,7 +23,7 @@
     value (a DAG); the decoder ignores the ids — size.Of is a tree sum over the
     unfolding (Properties/C20.v, theorems C20_graph_...). *)
 From Coq Require Import ZArith List Bool String.
-From Low Require Import Lib.Val Model.Size Spec.SizeSpec Model.SizeFmt Model.SizeStat Spec.SizeStatSpec.
+From Low Require Import Lib.Val Model.Size Spec.SizeSpec Model.SizeFmt Model.SizeStat Spec.SizeStatSpec Model.TypeHelper Spec.TypeHelperSpec.
 Import ListNotations.
 Open Scope string_scope.
 Open Scope Z_scope.
@@ -266,6 +266,22 @@ Definition stat_args (a : list val) : option (option lvalue * Z * Z * sopt) :=
   | _ => None
   end.
 
+(** ---- typehelper.ToSlice on protocol values: the elements stay opaque texts *)
+Definition targ_val (v : val) : targ val :=
+  match v with
+  | VL [VZ 23; _; VZ _; VL elems] | VL [VZ 23; _; VZ _; VL elems; VZ _] => ArgSlice elems
+  | _ => ArgOther
+  end.
+(** [Index(i).Interface()]: an interface-kinded element is handed over as the interface it holds *)
+Definition box_val (e : val) : val :=
+  match e with
+  | VL [VZ 20; _; VL o] => VL [VZ 20; VZ 0; VL o]
+  | _ => VL [VZ 20; VZ 0; VL [e]]
+  end.
+Definition slots_val (rst : list (option val)) : val :=
+  VL [VZ 23; VL [VZ 20; VZ 0]; VZ 0;
+      VL (map (fun o => match o with Some b => b | None => VL [VZ 20; VZ 0; VL []] end) rst)].
+
 Definition ops_C20 : list opdef := [
   (* size.Of(v): the number, P for a panic *)
   {| op_name := "size.Of";
@@ -332,4 +348,33 @@ Definition ops_C20 : list opdef := [
      op_spec := fun_spec (fun a => match stat_args a with
        | Some (d, depth, maxItem, o) => vzss (sort_lines (spec_lines d depth maxItem o))
        | None => VBad end) |}
+;
+  (* typehelper.ToSlice(v): the returned []interface{} written back as a value text, P for a panic *)
+  {| op_name := "typehelper.ToSlice";
+     op_run := fun a => match a with
+       | [v] => match dec_top v with
+                | Some _ => match ToSlice box_val (targ_val v) with Some rst => slots_val rst | None => VPanic end
+                | None => VBad end
+       | _ => VBad end;
+     op_spec := fun_spec (fun a => match a with
+       | [v] => match dec_top v with
+                | Some _ => match spec_ToSlice box_val (targ_val v) with Some rst => slots_val rst | None => VPanic end
+                | None => VBad end
+       | _ => VBad end) |};
+  (* size.Of(typehelper.ToSlice(v)): the composition users write to size the elements of a slice *)
+  {| op_name := "typehelper.ToSlice+size.Of";
+     op_run := fun a => match a with
+       | [v] => match dec_top v with
+                | Some d => match ToSlice box_value (targ_of d) with
+                            | Some rst => match sizeof (slots_value rst) with Some n => VZ n | None => VPanic end
+                            | None => VPanic end
+                | None => VBad end
+       | _ => VBad end;
+     op_spec := fun_spec (fun a => match a with
+       | [v] => match dec_top v with
+                | Some d => match targ_of d with
+                            | ArgSlice l => VZ (spec_ToSlice_size l)
+                            | ArgOther => VPanic end
+                | None => VBad end
+       | _ => VBad end) |}
 ].
